@@ -667,4 +667,25 @@ set_option maxRecDepth 100000 in
 theorem checkDemo_coherent : checkDemo.s.ring.ts = checkDemo.s.p.address ∧ checkDemo.s.p.address < 128 ∧
     NsCoherent checkDemo.s.ring := ⟨by decide, by decide, by unfold NsCoherent; decide⟩
 
+/-- **`first_transmission_enters`** — how a pass is entered from `PassToken` (after a GAP poll, after
+the removal of the previous successor, or while the synchronisation pause was awaited): a poll that
+starts in `PassToken(g, att)` and ends in a supervising state has transmitted exactly the token
+telegram TS → NS in this poll, recorded the own pass, and supervises with the SAME attempt number —
+stage 0 → 1 for `att = first`: the start state `CheckTokenPass(first)` of `pass_count_run` stands for
+one transmission of that telegram.  (For entries in the same poll as the end of a token hold —
+`UseToken` / `AwaitDataResponse` / `AwaitStatusResponse` via `passNow` — the transmitted bytes are not
+exposed by `UseTail`; not covered here.) -/
+theorem first_transmission_enters (s : Station) (apps : Apps) (now : Int) (phy : Bool) (rx : Bytes) (c' : Ctx)
+    (h : s.poll apps now phy rx = .ok c') (g : Bool) (att : Attempt) (hst : s.st = .passToken g att)
+    (att' : Attempt) (hc : c'.s.st = .checkTokenPass att') :
+    att' = att ∧ c'.tx = some (tokenTo s.p.address s.ring.ns) ∧
+    c'.s.ring = s.ring.witness s.p.address s.ring.ns := by
+  rcases passTok_poll s apps now phy rx c' h g att hst with ⟨h1, -, -⟩ | ⟨-, ⟨a, h1⟩, -⟩ | ⟨h1, h2, h3⟩
+  · rw [h1] at hc; cases hc
+  · rw [h1] at hc; cases hc
+  · rcases h2 with h2 | h2
+    · rw [h2] at hc; cases hc
+    · rw [h2] at hc; cases hc
+      exact ⟨rfl, h3, h1⟩
+
 end PV.C11
